@@ -24,11 +24,19 @@ META = {
     'text': 'Poll scripts of length 1-3 (quick) / 1-4 (thorough) over snapshots (control-node version, two peer versions in {v1, v2, null}, optionally a row '
             'of a peer the client does not know, or no answer at all), the last snapshot repeating; each peer up / marked down / unknown; '
             'max_schema_agreement_wait in {one poll, about three, about four polls}; polling through the control connection or another node. '
+            'Also scripts of 0-2 answered or unanswered polls followed by a poll that fails (the node closes the connection while the reads are '
+            'outstanding; the socket fails; the node answers the system.peers read with a server error), and scripts with an unanswered poll under a '
+            'poll timeout (control_connection_timeout) shorter than the budget, so that polling goes on after it; all of these for the direct call '
+            'via either node and for the DDL path. '
             'Direct call: True only if the last poll made shows one version among the control node and the known peers not marked down, no poll after '
-            'an agreeing one, False only if no poll agreed and the virtual time spent reached the budget.  DDL path (schema metadata enabled and '
-            'disabled): ResponseFuture.is_schema_agreed equals that verdict and the request completes.',
+            'an agreeing one, False only if no poll agreed and the virtual time spent reached the budget; a wait whose last poll failed may raise or '
+            'return False, never True.  DDL path (schema metadata enabled and disabled): ResponseFuture.is_schema_agreed equals that verdict over '
+            'the polls made until the request completed (False after a failed poll) and the request completes.',
     'note': 'Peer states are set on the Host objects (is_up) after a normal connect.  A budget <= 0 is the documented bypass and is only recorded, '
-            'not judged.  With schema metadata enabled the virtual node answers every system_schema query with an empty result.',
+            'not judged.  With schema metadata enabled the virtual node answers every system_schema query with an empty result.  A connection is lost the '
+            'way the reactors report it: close() for an orderly close by the peer, defunct(OSError) for a socket error, delivered in the place of '
+            'the response.  After a failed wait the driver re-submits a schema refresh which polls again: those later polls are served but are not '
+            'part of the judged request.',
     'design_ref': 'C43',
 }
 
@@ -358,13 +366,17 @@ def run(ctx):
     ctx.count('transitions', ctx.counters.get('polls_served', 0))
     ctx.count('executions', len(cs))
     ctx.cov['rule'] = ('cases = poll script x peer states x budget x polling node x (direct | DDL with schema metadata on/off), enumerated completely within the '
-                       'stated alphabets; transitions = polls served; non-trivial = script with differing poll verdicts or an unanswered poll, or a peer that is '
-                       'marked down / unknown; outcomes = (mode, metadata, verdict, polls made, raised?)')
+                       'stated alphabets (plus the poll timeout for scripts with unanswered polls); transitions = polls served; non-trivial = script with differing '
+                       'poll verdicts, an unanswered or a failed poll, or a peer that is marked down / unknown; outcomes = (mode, metadata, verdict, polls made, '
+                       'raised?, ended by a failed poll?); counters waits_ended_by_a_failed_poll / waits_polling_on_after_an_unanswered_poll = executions in '
+                       'which that actually happened')
     ctx.cov['exhaustive'] = True
     ctx.assume('peer states are the is_up attribute of the Host objects at the time of the wait (set directly after a normal connect)')
     ctx.assume('max_schema_agreement_wait <= 0 is the documented bypass of the agreement check: recorded, not judged')
     ctx.assume('a peer row without schema_version, and a row of a peer the client does not know, take no part in the verdict (as in the statement: "reported by ... every known peer")')
     ctx.assume('the control node always reports a schema version')
+    ctx.assume('a wait whose last poll failed (connection lost, error response) need not use up the budget and may raise the error (direct call); '
+               'it may not report agreement, and is_schema_agreed of the DDL request it belongs to must be False')
     ctx.assume('ControlConnection._time (a class attribute kept "for testing purposes") is rebound to the virtual clock')
 
 
